@@ -815,3 +815,539 @@ fn check_built(b: &Built) -> Result<(), Failure> {
     }
     Ok(())
 }
+
+// ---------------------------------------------------------------------------
+// scenario material
+// ---------------------------------------------------------------------------
+
+/// A string of exactly `n` UTF-16 units; the letters cycle so that a cut in the
+/// wrong place changes the text.
+fn units(n: u64, flavour: &str) -> String {
+    let ascii = |k: u64, from: u64| -> String { (0..k).map(|i| (b'a' + ((from + i) % 26) as u8) as char).collect() };
+    match flavour {
+        "astral_end" if n >= 2 => format!("{}😀", ascii(n - 2, 0)),
+        "astral_start" if n >= 2 => format!("😀{}", ascii(n - 2, 0)),
+        "astral_all" => {
+            let mut s: String = (0..n / 2).map(|i| if i % 2 == 0 { '😀' } else { '🎉' }).collect();
+            if n % 2 == 1 {
+                s.push('z');
+            }
+            s
+        }
+        "bmp2" => (0..n).map(|i| if i % 2 == 0 { 'é' } else { 'ü' }).collect(),
+        "bmp3" => (0..n).map(|i| if i % 2 == 0 { '€' } else { '語' }).collect(),
+        _ => ascii(n, 0),
+    }
+}
+
+fn tool<T, E: std::fmt::Display>(r: Result<T, E>, what: &str) -> T {
+    match r {
+        Ok(v) => v,
+        Err(e) => panic!("tool error while {}: {}", what, e),
+    }
+}
+
+fn build() {
+    at("building the document through the public API");
+}
+
+fn end_stickies(root: usize, len: u32) -> Vec<Sticky> {
+    let mut v = vec![Sticky {
+        root,
+        index: len,
+        assoc: Assoc::Before,
+    }];
+    if len >= 1 {
+        v.push(Sticky {
+            root,
+            index: len - 1,
+            assoc: Assoc::After,
+        });
+    }
+    if len >= 2 {
+        v.push(Sticky {
+            root,
+            index: len - 1,
+            assoc: Assoc::Before,
+        });
+    }
+    v
+}
+
+fn num(i: u64) -> Any {
+    Any::Number(i as f64)
+}
+
+// ---------------------------------------------------------------------------
+// document scenarios
+// ---------------------------------------------------------------------------
+
+/// `n` map entries with distinct keys in one transaction, then a text insert
+/// (a block with another info byte closes the run).
+fn s_map_keys(n: u64, opt: &str) -> Built {
+    build();
+    let gc = opt == "gc";
+    let eq = opt == "eqlen";
+    let name = if eq { "rootmp" } else { "m" };
+    let d = new_doc(1, gc);
+    let m = d.get_or_insert_map(name);
+    let t = d.get_or_insert_text("t");
+    {
+        let mut txn = d.transact_mut();
+        for i in 0..n {
+            let key = if eq { format!("k{:05}", i) } else { format!("k{}", i) };
+            m.insert(&mut txn, key, num(i));
+        }
+        t.insert(&mut txn, 0, "hello");
+    }
+    let mut b = Built::new(d, gc, roots(&[(name, Kind::Map), ("t", Kind::Text)]), vec![n as u32, 5]);
+    b.stickies = end_stickies(1, 5);
+    b
+}
+
+/// One key written `n` times in one transaction: the overwritten entries form one deleted block.
+fn s_map_same_key(n: u64, opt: &str) -> Built {
+    build();
+    let gc = opt == "gc";
+    let d = new_doc(1, gc);
+    let m = d.get_or_insert_map("m");
+    {
+        let mut txn = d.transact_mut();
+        for i in 0..n {
+            m.insert(&mut txn, "k", num(i));
+        }
+    }
+    Built::new(d, gc, roots(&[("m", Kind::Map)]), vec![if n > 0 { 1 } else { 0 }])
+}
+
+/// Two clients overwrite one key in turns, `n` times each: `2n` blocks that cannot be
+/// squashed, each with an origin of the other client.
+fn s_map_pingpong(n: u64, opt: &str) -> Built {
+    build();
+    let (ca, cb, gc) = match opt {
+        "small_gc" => (1, 2, true),
+        "u32" => ((1u64 << 32) - 1, 1u64 << 32, false),
+        "u53" => (MAX_CLIENT - 1, MAX_CLIENT, false),
+        _ => (1, 2, false),
+    };
+    let a = new_doc(ca, gc);
+    let b = new_doc(cb, gc);
+    let ma = a.get_or_insert_map("m");
+    let mb = b.get_or_insert_map("m");
+    for i in 0..n {
+        let u = {
+            let mut txn = a.transact_mut();
+            ma.insert(&mut txn, "k", num(2 * i));
+            txn.encode_update_v1()
+        };
+        tool(b.transact_mut().apply_update(tool(Update::decode_v1(&u), "decoding")), "applying");
+        let u = {
+            let mut txn = b.transact_mut();
+            mb.insert(&mut txn, "k", num(2 * i + 1));
+            txn.encode_update_v1()
+        };
+        tool(a.transact_mut().apply_update(tool(Update::decode_v1(&u), "decoding")), "applying");
+    }
+    Built::new(a, gc, roots(&[("m", Kind::Map)]), vec![if n > 0 { 1 } else { 0 }])
+}
+
+/// `n` single elements inserted at the front in one transaction: `n` blocks, right origins ascending.
+fn s_push_front(n: u64, opt: &str) -> Built {
+    build();
+    let d = new_doc(1, false);
+    if opt == "str" {
+        let t = d.get_or_insert_text("t");
+        {
+            let mut txn = d.transact_mut();
+            for i in 0..n {
+                let c = ((b'a' + (i % 26) as u8) as char).to_string();
+                t.insert(&mut txn, 0, &c);
+            }
+        }
+        let mut b = Built::new(d, false, roots(&[("t", Kind::Text)]), vec![n as u32]);
+        b.stickies = end_stickies(0, n as u32);
+        b
+    } else {
+        let a = d.get_or_insert_array("a");
+        {
+            let mut txn = d.transact_mut();
+            for i in 0..n {
+                a.push_front(&mut txn, num(i));
+            }
+        }
+        let mut b = Built::new(d, false, roots(&[("a", Kind::Array)]), vec![n as u32]);
+        b.stickies = end_stickies(0, n as u32);
+        b
+    }
+}
+
+/// One element, then `n` elements inserted at index 1: both origins present, the left one constant.
+fn s_insert_at_1(n: u64, _opt: &str) -> Built {
+    build();
+    let d = new_doc(1, false);
+    let a = d.get_or_insert_array("a");
+    {
+        let mut txn = d.transact_mut();
+        a.push_back(&mut txn, num(0));
+        for i in 0..n {
+            a.insert(&mut txn, 1, num(i + 1));
+        }
+    }
+    Built::new(d, false, roots(&[("a", Kind::Array)]), vec![n as u32 + 1])
+}
+
+/// One block holding `n` values.
+fn s_array_block(n: u64, _opt: &str) -> Built {
+    build();
+    let d = new_doc(1, false);
+    let a = d.get_or_insert_array("a");
+    a.insert_range(&mut d.transact_mut(), 0, (0..n).map(num));
+    let mut b = Built::new(d, false, roots(&[("a", Kind::Array)]), vec![n as u32]);
+    b.stickies = end_stickies(0, n as u32);
+    b
+}
+
+/// One text insert of `n` UTF-16 units.
+fn s_text_insert(n: u64, opt: &str) -> Built {
+    build();
+    let d = new_doc(1, false);
+    let t = d.get_or_insert_text("t");
+    t.insert(&mut d.transact_mut(), 0, &units(n, opt));
+    let mut b = Built::new(d, false, roots(&[("t", Kind::Text)]), vec![n as u32]);
+    // (an index inside a surrogate pair is not a position: keep to the ASCII end)
+    if opt == "ascii" || opt == "astral_start" || opt == "bmp2" || opt == "bmp3" {
+        b.stickies = end_stickies(0, n as u32);
+    } else {
+        b.stickies = vec![Sticky {
+            root: 0,
+            index: n as u32,
+            assoc: Assoc::Before,
+        }];
+    }
+    b
+}
+
+/// Client 1 writes a text, client 2 receives it and inserts `n` characters back to front,
+/// two positions apart, in ONE transaction: both origin clocks descend by a constant step.
+/// `opt`: `full` (whole state) or `diff` (client 2's part only, against client 1's state).
+fn s_text_desc(n: u64, opt: &str) -> Built {
+    build();
+    let a = new_doc(1, false);
+    let ta = a.get_or_insert_text("t");
+    ta.insert(&mut a.transact_mut(), 0, &units(2 * n + 2, "ascii"));
+    let base = a.transact().encode_state_as_update_v1(&StateVector::default());
+    let sv_a = a.transact().state_vector();
+    let b = new_doc(2, false);
+    let tb = b.get_or_insert_text("t");
+    tool(b.transact_mut().apply_update(tool(Update::decode_v1(&base), "decoding")), "applying");
+    {
+        let mut txn = b.transact_mut();
+        for j in (1..=n).rev() {
+            tb.insert(&mut txn, (2 * j) as u32, "X");
+        }
+    }
+    let mut out = Built::new(b, false, roots(&[("t", Kind::Text)]), vec![(3 * n + 2) as u32]);
+    if opt == "diff" {
+        out.base = sv_a;
+        out.pre = vec![base];
+    }
+    out
+}
+
+/// Like `s_text_desc` with 4 insertions `n` positions apart (`asc`/`desc`): the magnitude of the step.
+fn s_text_steps(n: u64, opt: &str) -> Built {
+    build();
+    const K: u64 = 4;
+    let a = new_doc(1, false);
+    let ta = a.get_or_insert_text("t");
+    ta.insert(&mut a.transact_mut(), 0, &units(n * (K + 1) + 2, "ascii"));
+    let base = a.transact().encode_state_as_update_v1(&StateVector::default());
+    let b = new_doc(2, false);
+    let tb = b.get_or_insert_text("t");
+    tool(b.transact_mut().apply_update(tool(Update::decode_v1(&base), "decoding")), "applying");
+    {
+        let mut txn = b.transact_mut();
+        if opt == "asc" {
+            for j in 1..=K {
+                tb.insert(&mut txn, (j * n + (j - 1)) as u32, "X");
+            }
+        } else {
+            for j in (1..=K).rev() {
+                tb.insert(&mut txn, (j * n) as u32, "X");
+            }
+        }
+    }
+    Built::new(b, false, roots(&[("t", Kind::Text)]), vec![(n * (K + 1) + 2 + K) as u32])
+}
+
+/// `n` nested types of one kind at the front of a root array, one of another kind (closes the
+/// type-ref run), then one child in every nested type (parents named by id).
+/// `one_map`: ONE nested map with `n` entries (the same parent id `n` times).
+fn s_nested(n: u64, opt: &str) -> Built {
+    build();
+    let d = new_doc(1, false);
+    if opt == "one_map" {
+        let m = d.get_or_insert_map("m");
+        {
+            let mut txn = d.transact_mut();
+            let inner = m.insert(&mut txn, "inner", MapPrelim::default());
+            for i in 0..n {
+                inner.insert(&mut txn, format!("k{}", i), num(i));
+            }
+            m.insert(&mut txn, "z", num(1));
+        }
+        return Built::new(d, false, roots(&[("m", Kind::Map)]), vec![2]);
+    }
+    let a = d.get_or_insert_array("a");
+    {
+        let mut txn = d.transact_mut();
+        match opt {
+            "array" => {
+                let refs: Vec<ArrayRef> = (0..n).map(|_| a.push_front(&mut txn, ArrayPrelim::default())).collect();
+                a.push_front(&mut txn, MapPrelim::default());
+                for (i, r) in refs.iter().enumerate() {
+                    r.push_back(&mut txn, num(i as u64));
+                }
+            }
+            "text" => {
+                let refs: Vec<TextRef> = (0..n).map(|_| a.push_front(&mut txn, TextPrelim::new(""))).collect();
+                a.push_front(&mut txn, MapPrelim::default());
+                for r in refs.iter() {
+                    r.insert(&mut txn, 0, "x");
+                }
+            }
+            _ => {
+                let refs: Vec<MapRef> = (0..n).map(|_| a.push_front(&mut txn, MapPrelim::default())).collect();
+                a.push_front(&mut txn, ArrayPrelim::default());
+                for (i, r) in refs.iter().enumerate() {
+                    r.insert(&mut txn, "k", num(i as u64));
+                }
+            }
+        }
+    }
+    Built::new(d, false, roots(&[("a", Kind::Array)]), vec![n as u32 + 1])
+}
+
+/// XML elements (their names are KEYS of the v2 format): `same` / `distinct`: `n` elements
+/// at the front of a fragment, then a text node; `long`: one element whose name has `n` units.
+fn s_xml(n: u64, opt: &str) -> Built {
+    build();
+    let d = new_doc(1, false);
+    let x = d.get_or_insert_xml_fragment("x");
+    let len;
+    {
+        let mut txn = d.transact_mut();
+        if opt == "long" {
+            let e = x.insert(&mut txn, 0, XmlElementPrelim::empty(units(n.max(1), "ascii")));
+            e.insert_attribute(&mut txn, "id", "1");
+            len = 1;
+        } else {
+            for i in 0..n {
+                let name = if opt == "distinct" { format!("e{}", i) } else { "p".to_string() };
+                x.insert(&mut txn, 0, XmlElementPrelim::empty(name));
+            }
+            x.insert(&mut txn, 0, XmlTextPrelim::new("t"));
+            len = n as u32 + 1;
+        }
+    }
+    Built::new(d, false, roots(&[("x", Kind::Xml)]), vec![len])
+}
+
+/// Formatting attributes on the first character of "ab" (their names are KEYS): `same`: one
+/// name, `n` values; `distinct`: `n` names; `long`: one name of `n` units.
+fn s_formats(n: u64, opt: &str) -> Built {
+    build();
+    let d = new_doc(1, false);
+    let t = d.get_or_insert_text("t");
+    {
+        let mut txn = d.transact_mut();
+        t.insert(&mut txn, 0, "ab");
+        if opt == "long" {
+            let key: Arc<str> = units(n.max(1), "ascii").as_str().into();
+            t.format(&mut txn, 0, 1, Attrs::from([(key, Any::Bool(true))]));
+        } else {
+            for i in 0..n {
+                let (key, v): (Arc<str>, Any) = if opt == "distinct" {
+                    (format!("k{}", i).as_str().into(), Any::Bool(true))
+                } else {
+                    ("b".into(), num(i))
+                };
+                t.format(&mut txn, 0, 1, Attrs::from([(key, v)]));
+            }
+        }
+    }
+    Built::new(d, false, roots(&[("t", Kind::Text)]), vec![2])
+}
+
+/// A text of `2n` characters, every other one removed (back to front): `n` deleted ranges.
+fn s_delete_ranges(n: u64, opt: &str) -> Built {
+    build();
+    let gc = opt == "gc";
+    let d = new_doc(1, gc);
+    let t = d.get_or_insert_text("t");
+    t.insert(&mut d.transact_mut(), 0, &units(2 * n, "ascii"));
+    {
+        let mut txn = d.transact_mut();
+        for i in (0..n).rev() {
+            t.remove_range(&mut txn, (2 * i + 1) as u32, 1);
+        }
+    }
+    let mut b = Built::new(d, gc, roots(&[("t", Kind::Text)]), vec![n as u32]);
+    b.stickies = end_stickies(0, n as u32);
+    b
+}
+
+/// One deleted range of `n` elements. `text_keep` / `text_gc` / `array_gc`: inside a sequence of
+/// `n + 2` elements; `nested_gc`: a nested array of `n` elements removed from a map of a
+/// document that collects garbage (a GC block of length `n`).
+fn s_delete_big(n: u64, opt: &str) -> Built {
+    build();
+    let gc = opt != "text_keep";
+    let d = new_doc(1, gc);
+    match opt {
+        "array_gc" => {
+            let a = d.get_or_insert_array("a");
+            a.insert_range(&mut d.transact_mut(), 0, (0..n + 2).map(num));
+            a.remove_range(&mut d.transact_mut(), 1, n as u32);
+            Built::new(d, gc, roots(&[("a", Kind::Array)]), vec![2])
+        }
+        "nested_gc" => {
+            let m = d.get_or_insert_map("m");
+            {
+                let mut txn = d.transact_mut();
+                m.insert(&mut txn, "arr", (0..n).map(|i| i as f64).collect::<ArrayPrelim>());
+                m.insert(&mut txn, "z", num(1));
+            }
+            m.remove(&mut d.transact_mut(), "arr");
+            Built::new(d, gc, roots(&[("m", Kind::Map)]), vec![1])
+        }
+        _ => {
+            let t = d.get_or_insert_text("t");
+            t.insert(&mut d.transact_mut(), 0, &units(n + 2, "ascii"));
+            t.remove_range(&mut d.transact_mut(), 1, n as u32);
+            let mut b = Built::new(d, gc, roots(&[("t", Kind::Text)]), vec![2]);
+            b.stickies = end_stickies(0, 2);
+            b
+        }
+    }
+}
+
+/// `n` clients write one map entry each (`distinct` keys, or the `same` key: all entries but
+/// one end up deleted); a document that received all of them is the source.
+fn s_many_clients(n: u64, opt: &str) -> Built {
+    build();
+    let main = new_doc(RECEIVER - 1, false);
+    let mm = main.get_or_insert_map("m");
+    let _ = &mm;
+    for c in 1..=n {
+        let d = new_doc(c, false);
+        let m = d.get_or_insert_map("m");
+        let key = if opt == "same" { "k".to_string() } else { format!("k{}", c) };
+        m.insert(&mut d.transact_mut(), key, num(c));
+        let u = d.transact().encode_state_as_update_v1(&StateVector::default());
+        tool(main.transact_mut().apply_update(tool(Update::decode_v1(&u), "decoding")), "applying");
+    }
+    let len = if opt == "same" { n.min(1) } else { n } as u32;
+    Built::new(main, false, roots(&[("m", Kind::Map)]), vec![len])
+}
+
+/// A root text whose NAME has `n` units.
+fn s_root_name(n: u64, opt: &str) -> Built {
+    build();
+    let name = units(n.max(1), opt);
+    let d = new_doc(1, false);
+    let t = d.get_or_insert_text(name.as_str());
+    t.insert(&mut d.transact_mut(), 0, "hi");
+    let mut b = Built::new(d, false, vec![(name, Kind::Text)], vec![2]);
+    b.stickies = end_stickies(0, 2);
+    b
+}
+
+/// A text of `2n` units in one block; the update is the diff against "the first `n` units":
+/// the block is cut at offset `n` (its origin becomes clock `n - 1`).
+fn s_diff_offset(n: u64, opt: &str) -> Built {
+    build();
+    let n = n.max(1);
+    let d = new_doc(1, false);
+    let t = d.get_or_insert_text("t");
+    let all = units(2 * n, if opt == "astral" { "astral_all" } else { "ascii" });
+    let cut = all.char_indices().scan(0u64, |u, (i, c)| {
+        let at = *u;
+        *u += c.len_utf16() as u64;
+        Some((at, i))
+    });
+    let byte = cut.filter(|(u, _)| *u >= n).map(|(_, i)| i).next().unwrap_or(all.len());
+    // (with astral characters `n` odd falls inside a pair: cut one unit later)
+    let first = &all[..byte];
+    let first_units = first.encode_utf16().count() as u32;
+    t.insert(&mut d.transact_mut(), 0, first);
+    let pre = d.transact().encode_state_as_update_v1(&StateVector::default());
+    let base = d.transact().state_vector();
+    t.insert(&mut d.transact_mut(), first_units, &all[byte..]);
+    let mut b = Built::new(d, false, roots(&[("t", Kind::Text)]), vec![(2 * n) as u32]);
+    b.base = base;
+    b.pre = vec![pre];
+    b
+}
+
+fn any_of(n: u64, opt: &str) -> Any {
+    match opt {
+        "array" => Any::Array((0..n).map(num).collect::<Vec<_>>().into()),
+        "map" => {
+            let m: HashMap<String, Any> = (0..n).map(|i| (format!("k{}", i), num(i))).collect();
+            Any::Map(m.into())
+        }
+        "buffer" => Any::Buffer((0..n).map(|i| (i % 251) as u8).collect::<Vec<u8>>().into()),
+        "depth_array" | "depth_map" | "depth_mixed" => {
+            // `n` containers around a leaf
+            let mut v = Any::String("leaf".into());
+            for i in 0..n {
+                let as_map = match opt {
+                    "depth_map" => true,
+                    "depth_mixed" => i % 2 == 0,
+                    _ => false,
+                };
+                v = if as_map {
+                    let mut m = HashMap::new();
+                    m.insert("k".to_string(), v);
+                    Any::Map(m.into())
+                } else {
+                    Any::Array(vec![v].into())
+                };
+            }
+            v
+        }
+        "int_pos" => Any::Number(n as f64),
+        "int_neg" => Any::Number(-(n as f64)),
+        "key_len" => {
+            let mut m = HashMap::new();
+            m.insert(units(n, "ascii"), Any::Null);
+            Any::Map(m.into())
+        }
+        s if s.starts_with("string_") => Any::String(units(n, &s[7..]).as_str().into()),
+        _ => Any::Null,
+    }
+}
+
+/// An `Any` of size `n` as a map value (`embed_*`: as an embed of a text) of a document.
+fn s_doc_any(n: u64, opt: &str) -> Built {
+    build();
+    let d = new_doc(1, false);
+    if let Some(kind) = opt.strip_prefix("embed_") {
+        let t = d.get_or_insert_text("t");
+        {
+            let mut txn = d.transact_mut();
+            t.insert(&mut txn, 0, "ab");
+            t.insert_embed(&mut txn, 1, any_of(n, kind));
+        }
+        return Built::new(d, false, roots(&[("t", Kind::Text)]), vec![3]);
+    }
+    let m = d.get_or_insert_map("m");
+    if opt == "binary" {
+        // (a byte vector becomes binary content, not an `Any`)
+        m.insert(&mut d.transact_mut(), "v", (0..n).map(|i| (i % 251) as u8).collect::<Vec<u8>>());
+    } else {
+        m.insert(&mut d.transact_mut(), "v", any_of(n, opt));
+    }
+    Built::new(d, false, roots(&[("m", Kind::Map)]), vec![1])
+}
